@@ -2555,7 +2555,11 @@ func (pid *PID) freeChildren(ctx context.Context) error {
 				logger.Debugf("parent %s disowning descendant %s", pid.Name(), child.Name())
 				pid.UnWatch(child)
 				tree.removeDescendant(node.id, child.ID())
-				if child.IsSuspended() || child.IsRunning() {
+				// a child whose stop is already in flight (Stop, Kill or passivation
+				// issued elsewhere) is awaited too: Shutdown serializes on the child's
+				// stopLocker and returns once that stop has completed, so this actor's
+				// PostStop never runs before the child's has finished.
+				if child.IsSuspended() || child.IsRunning() || child.IsStopping() {
 					if err := child.Shutdown(ctx); err != nil {
 						// only return error when the actor is not dead
 						// because if the actor is dead it means that
